@@ -1552,13 +1552,69 @@ class SymCtx:
             nr, dr = _ratfun(_simp(self.cancel_explog(rterm(rhs))))
             d = z3.simplify(nl * dr - nr * dl, som=True, som_blowup=10000000)
             self.n_claim_queries += 1
-            if z3.is_rational_value(d) and d.numerator_as_long() == 0:
-                self.claims.append((name, 'unsat', round(time.time() - t0, 4)))
-                self.solver_s += time.time() - t0
-                return True
+            for _ in range(4):
+                if z3.is_rational_value(d) and d.numerator_as_long() == 0:
+                    self.claims.append((name, 'unsat', round(time.time() - t0, 4)))
+                    self.solver_s += time.time() - t0
+                    return True
+                d2 = self._reduce_sqrt(d)
+                if d2 is None:
+                    break
+                d = d2
         except _NotRational:
             pass
         return self.claim(name, SymX(rterm(lhs)) == SymX(rterm(rhs)))
+
+    def _reduce_sqrt(self, d):
+        """Rewrite the sum-of-monomials term d with r*r -> a for every square-root constant r = sqrt(a) of this path
+        (the only fact used is r*r = a, which holds by construction of r); returns the re-normalised numerator, or
+        None when nothing could be rewritten."""
+        roots = self.uf_apps.get('SQRT', [])
+        if not roots:
+            return None
+        changed = [False]
+
+        def mono(t):
+            facs, todo = [], [t]
+            while todo:
+                f = todo.pop()
+                if z3.is_app(f) and f.decl().kind() == z3.Z3_OP_MUL:
+                    todo.extend(f.children())
+                else:
+                    facs.append(f)
+            cnt = [0] * len(roots)
+            rest = []
+            for f in facs:
+                base, e = f, 1
+                if z3.is_app(f) and f.decl().kind() == z3.Z3_OP_POWER and z3.is_rational_value(f.children()[1]) and \
+                        f.children()[1].denominator_as_long() == 1 and f.children()[1].numerator_as_long() >= 0:
+                    base, e = f.children()[0], f.children()[1].numerator_as_long()
+                for i, (a, ra) in enumerate(roots):
+                    if ra.eq(base):
+                        cnt[i] += e
+                        break
+                else:
+                    rest.append(f)
+            out = z3.RealVal(1)
+            for f in rest:
+                out = out * f
+            for i, (a, ra) in enumerate(roots):
+                if cnt[i] >= 2:
+                    changed[0] = True
+                for _ in range(cnt[i] // 2):
+                    out = out * a
+                if cnt[i] % 2:
+                    out = out * ra
+            return out
+        terms = d.children() if (z3.is_app(d) and d.decl().kind() == z3.Z3_OP_ADD) else [d]
+        acc = None
+        for t in terms:
+            m_ = mono(t)
+            acc = m_ if acc is None else acc + m_
+        if not changed[0]:
+            return None
+        n, _den = _ratfun(_simp(acc))
+        return z3.simplify(n, som=True, som_blowup=10000000)
 
     def path_model(self):
         """A model of the current path condition (for shadow validation)."""
